@@ -13,9 +13,10 @@ import (
 )
 
 var refreshRows = map[string]string{
-	"eager-only": "exactly the definitions whose component is not LazyInit are created by refresh, each once",
-	"sorted":     "they are created in ascending name order, whatever order the registry enumerates them in",
-	"error":      "a failing creation ends refresh at once with a non-nil error; otherwise the result is nil",
+	"eager-only":   "exactly the definitions whose component is not LazyInit are created by refresh, each once",
+	"sorted":       "they are created in ascending name order, whatever order the registry enumerates them in",
+	"error":        "a failing creation ends refresh at once with a non-nil error; otherwise the result is nil",
+	"creates-only": "refresh asks nothing of the post-processor delegate itself: a definition's properties are resolved only while its component is being created",
 }
 
 // refreshTable interprets a Factory implementation's Refresh - with whatever helpers it is split into - on every
@@ -38,14 +39,25 @@ func refreshTable(c *core.Ctx, refresh *ssa.Function, maxLen int) (rs rows, runs
 				var created []string
 				var stopped, wantErr bool
 				var after []string
+				var delegated []string
 				build := func() (absint.Oracle, []absint.Value, []absint.Value) {
 					created, stopped, wantErr, after = nil, false, false, nil
+					delegated = nil
 					t := newTbl(c)
 					factory := absint.NewTok("factory", "factory")
 					reg := absint.NewTok("definitionRegistry", "registry")
+					owner := ownerOf(refresh)
 					t.field = func(ip *absint.Interp, obj *absint.Tok, name string, typ types.Type) absint.Value {
 						if obj == factory && types.IsInterface(typ) {
+							if n := core.NamedOf(typ); n != nil && !n.Obj().Exported() && n.Obj().Pkg() != nil && core.InScopePath(n.Obj().Pkg().Path()) {
+								return absint.NewTok("delegate:"+name, "delegate") // the delegate behind a narrowed view
+							}
 							return reg
+						}
+						if p, ok := typ.Underlying().(*types.Pointer); ok && obj == factory {
+							if n := core.NamedOf(p.Elem()); n != nil && n != owner && core.StructOf(n) != nil {
+								return absint.NewTok("delegate:"+name, "delegate")
+							}
 						}
 						return nil
 					}
@@ -82,6 +94,22 @@ func refreshTable(c *core.Ctx, refresh *ssa.Function, maxLen int) (rs rows, runs
 						}
 						return out
 					}
+					if ro.DRGetMetaByName != nil {
+						t.invoke[ro.DRGetMetaByName] = func(ip *absint.Interp, a []absint.Value) absint.Value {
+							nm, _ := a[1].(absint.Str)
+							for _, i := range perm {
+								if names[i] == string(nm) {
+									m := absint.NewTok("meta:"+names[i], "meta")
+									raw := absint.NewTok("raw:"+names[i], "component")
+									raw.Attr["lazy"] = absint.Bool(mask&(1<<i) != 0)
+									m.Fields["Raw"] = raw
+									m.Attr["name"] = absint.Str(names[i])
+									return m
+								}
+							}
+							return absint.Nil{}
+						}
+					}
 					if nameM != nil {
 						t.callee[nameM] = func(ip *absint.Interp, a []absint.Value) absint.Value {
 							if m, ok := a[0].(*absint.Tok); ok && m.Attr["name"] != nil {
@@ -115,7 +143,7 @@ func refreshTable(c *core.Ctx, refresh *ssa.Function, maxLen int) (rs rows, runs
 						}
 					}
 					t.invoke[ro.FGetComponentByName] = func(ip *absint.Interp, a []absint.Value) absint.Value { return create(ip, a[1], true) }
-					return t, []absint.Value{factory}, nil
+					return &delegateEvents{tbl: t, events: &delegated}, []absint.Value{factory}, nil
 				}
 				check := func(ip *absint.Interp, out absint.Outcome) {
 					var cfg []string
@@ -134,6 +162,10 @@ func refreshTable(c *core.Ctx, refresh *ssa.Function, maxLen int) (rs rows, runs
 					if out.Panic != nil {
 						rs.fail("error", "PANIC "+w)
 						return
+					}
+					rs.hit("creates-only")
+					if len(delegated) != 0 {
+						rs.fail("creates-only", w+fmt.Sprintf(" asked of the delegate: %v", delegated))
 					}
 					isErr := len(out.Ret) == 1 && isErrTok(out.Ret[0])
 					rs.hit("error")
@@ -242,4 +274,47 @@ func refreshRules(c *core.Ctx, r *core.Report, ruleOf func(row string) string) {
 		}
 	}
 	r.Floor(first, "Factory implementations with a Refresh method", n, 1)
+}
+
+// delegateEvents: a table oracle that records, instead of interpreting, whatever is asked of the post-processor
+// delegate the factory holds (a call whose receiver is the delegate token) and answers with zero values.
+type delegateEvents struct {
+	*tbl
+	events *[]string
+}
+
+func (o *delegateEvents) Call(ip *absint.Interp, site ssa.CallInstruction, args []absint.Value) (absint.Value, bool) {
+	com := site.Common()
+	if (com.StaticCallee() != nil || com.IsInvoke()) && len(args) > 0 {
+		if d, ok := args[0].(*absint.Tok); ok && d.Class == "delegate" {
+			name := ""
+			if com.IsInvoke() {
+				name = com.Method.Name()
+			} else {
+				name = com.StaticCallee().Name()
+			}
+			var shown []string
+			for _, a := range args[1:] {
+				shown = append(shown, absint.Show(a))
+			}
+			*o.events = append(*o.events, name+"("+strings.Join(shown, ",")+")")
+			res := com.Signature().Results()
+			var outs absint.Tuple
+			for i := 0; i < res.Len(); i++ {
+				if isErrorType(res.At(i).Type()) {
+					outs = append(outs, absint.Nil{})
+				} else {
+					outs = append(outs, ip.ZeroOf(res.At(i).Type()))
+				}
+			}
+			switch len(outs) {
+			case 0:
+				return nil, true
+			case 1:
+				return outs[0], true
+			}
+			return outs, true
+		}
+	}
+	return o.tbl.Call(ip, site, args)
 }
